@@ -51,7 +51,7 @@ def main(argv: list[str]) -> int:
                 return 1
             print(f"[{pid}] replay of {path}: violation NOT reproduced on this tree (observed {obs[0]})")
             return 0
-        tier = os.environ.get("VERIF_TIER") or argv[1]
+        tier = argv[1] if argv[1] in ("quick", "thorough") else (os.environ.get("VERIF_TIER") or argv[1])
         if tier not in ("quick", "thorough"):
             print(f"unknown tier {tier}")
             return 2
